@@ -55,6 +55,31 @@ func c16MutatingLock(c *Ctx) *RuleResult {
 			helper[u.Fn] = true
 		}
 	}
+	// helpers `func (f) h(..., b bool, ...) { if b { f.lockMutatingData() } else { f.lock.Lock() } }`:
+	// function -> index of the deciding parameter
+	condLockers := map[*types.Func]int{}
+	for _, hu := range units {
+		for _, cs := range CallsTo([]*FuncUnit{hu}, lmd) {
+			gs := flattenGuards(GuardsOf(hu.Info(), hu.Decl.Body, cs.Node))
+			if len(gs) != 1 || !gs[0].Pos {
+				continue
+			}
+			id, ok := ast.Unparen(gs[0].Cond).(*ast.Ident)
+			if !ok {
+				continue
+			}
+			v, ok := hu.Info().Uses[id].(*types.Var)
+			if !ok || !isParamOf(hu, v) {
+				continue
+			}
+			sig := hu.Fn.Type().(*types.Signature)
+			for i := 0; i < sig.Params().Len(); i++ {
+				if sig.Params().At(i) == v {
+					condLockers[hu.Fn] = i
+				}
+			}
+		}
+	}
 	checkSite := func(u *FuncUnit, site ast.Node, what string) {
 		info := u.Info()
 		siteGuards := map[string]bool{}
@@ -65,16 +90,35 @@ func c16MutatingLock(c *Ctx) *RuleResult {
 		construct := constructOf(u, what)
 		okL := false
 		why := "no call of lockMutatingData"
+		type lockSite struct {
+			node   ast.Node
+			guards []Guard
+		}
+		var lockSites []lockSite
 		for _, cs := range CallsTo([]*FuncUnit{u}, lmd) {
+			lockSites = append(lockSites, lockSite{cs.Node, flattenGuards(GuardsOf(info, u.Decl.Body, cs.Node))})
+		}
+		// ... or through a helper that takes the lock that way when its boolean parameter says so
+		for h, pi := range condLockers {
+			for _, cs := range CallsTo([]*FuncUnit{u}, h) {
+				call := cs.Node.(*ast.CallExpr)
+				if pi < len(call.Args) {
+					gs := GuardsOf(info, u.Decl.Body, cs.Node)
+					gs = append(gs, Guard{expandGuardCond(info, u.Decl.Body, call.Args[pi], 0), true})
+					lockSites = append(lockSites, lockSite{cs.Node, flattenGuards(gs)})
+				}
+			}
+		}
+		for _, cs := range lockSites {
 			why = ""
 			sub := true
-			for _, lg := range flattenGuards(GuardsOf(info, u.Decl.Body, cs.Node)) {
+			for _, lg := range cs.guards {
 				if !siteGuards[lg.String()] {
 					sub = false
 					why = "lockMutatingData is only taken under " + lg.String() + ", which the mutation is not restricted to"
 				}
 			}
-			if sub && (g.Dominates(cs.Node, site) || condDominates(g, info, u, cs.Node, site)) {
+			if sub && (g.Dominates(cs.node, site) || condDominates(g, info, u, cs.node, site)) {
 				okL = true
 			}
 		}
@@ -84,6 +128,14 @@ func c16MutatingLock(c *Ctx) *RuleResult {
 			r.bad(c.Prop, construct, posOf(p, site), "the file's contents are changed without having waited for frozen readers (lockMutatingData): an upload in progress hashes one version and stores another, so the reported digest does not match the stored bytes ("+why+")")
 		}
 	}
+	// helpers that invalidate the cached digest on all their paths
+	invalidators := mustPass(units, func(x *FuncUnit, n ast.Node) bool {
+		as, ok := n.(*ast.AssignStmt)
+		if !ok || len(as.Lhs) != 1 || len(as.Rhs) != 1 {
+			return false
+		}
+		return fieldOf(x.Info(), as.Lhs[0]) == cd && strings.HasSuffix(exprStr(as.Rhs[0]), "BadDigest")
+	})
 	for _, u := range units {
 		info := u.Info()
 		for _, m := range poolFileMutations(p, u) {
@@ -100,15 +152,27 @@ func c16MutatingLock(c *Ctx) *RuleResult {
 			for _, gd := range flattenGuards(GuardsOf(info, u.Decl.Body, m)) {
 				siteGuards[gd.String()] = true
 			}
+			var invNodes []ast.Node
 			for _, w := range FieldWrites([]*FuncUnit{u}, cd, false) {
 				if w.RHS == nil || !strings.HasSuffix(exprStr(w.RHS), "BadDigest") {
 					continue
 				}
-				if !g.Dominates(m, w.Node) && !(m.Pos() < w.Node.Pos()) {
+				invNodes = append(invNodes, w.Node)
+			}
+			ast.Inspect(u.Decl.Body, func(k ast.Node) bool {
+				if call, ok := k.(*ast.CallExpr); ok {
+					if fn := calleeOf(info, call); fn != nil && invalidators[fn] {
+						invNodes = append(invNodes, call)
+					}
+				}
+				return true
+			})
+			for _, wn := range invNodes {
+				if !g.Dominates(m, wn) && !(m.Pos() < wn.Pos()) {
 					continue
 				}
 				extraOK := true
-				for _, gd := range flattenGuards(GuardsOf(info, u.Decl.Body, w.Node)) {
+				for _, gd := range flattenGuards(GuardsOf(info, u.Decl.Body, wn)) {
 					if siteGuards[gd.String()] {
 						continue
 					}
@@ -279,7 +343,6 @@ func c16Lifetime(c *Ctx) *RuleResult {
 			continue
 		}
 		info := u.Info()
-		g := NewFuncCFG(info, u.Decl.Body)
 		// increments of a counter field of the receiver
 		var incs []ast.Node
 		var counter *types.Var
@@ -307,49 +370,22 @@ func c16Lifetime(c *Ctx) *RuleResult {
 		if len(incs) == 0 {
 			continue
 		}
-		// zero test: if <counter or value loaded from it> == 0 { return non-OK }
-		var test ast.Expr
-		ast.Inspect(u.Decl.Body, func(n ast.Node) bool {
-			ifs, ok := n.(*ast.IfStmt)
-			if !ok || !terminates(info, ifs.Body.List) {
-				return true
-			}
-			be, ok := ast.Unparen(ifs.Cond).(*ast.BinaryExpr)
-			if !ok || be.Op != token.EQL || exprStr(be.Y) != "0" {
-				return true
-			}
-			operand := resolveLocalAliasNearest(u, be.X, ifs.Pos())
-			isCnt := fieldOf(info, operand) == counter
-			if call, ok := ast.Unparen(operand).(*ast.CallExpr); ok {
-				if sel, ok := ast.Unparen(call.Fun).(*ast.SelectorExpr); ok && sel.Sel.Name == "Load" && fieldOf(info, sel.X) == counter {
-					isCnt = true
-				}
-			}
-			if !isCnt {
-				return true
-			}
-			ret, ok := ifs.Body.List[len(ifs.Body.List)-1].(*ast.ReturnStmt)
-			if !ok {
-				return true
-			}
-			refuses := true
-			for _, res := range ret.Results {
-				if s := exprStr(res); s == "StatusOK" || s == "true" {
-					refuses = false
-				}
-			}
-			if refuses {
-				test = ifs.Cond
-			}
-			return true
-		})
+		// every increment happens under the knowledge "counter != 0" (the zero case left the function)
 		construct := constructOf(u, "refuse-at-zero")
-		okT := test != nil
-		if okT {
-			for _, inc := range incs {
-				if !g.Dominates(test, inc) {
-					okT = false
+		okT := true
+		for _, inc := range incs {
+			known := false
+			for _, gd := range flattenGuards(GuardsOf(info, u.Decl.Body, inc)) {
+				be, ok := ast.Unparen(gd.Cond).(*ast.BinaryExpr)
+				if !ok || !gd.Pos || exprStr(be.Y) != "0" {
+					continue
 				}
+				if (be.Op == token.NEQ || be.Op == token.GTR) && isCounterValue(u, be.X, counter) {
+					known = true
+				}
+			}
+			if !known {
+				okT = false
 			}
 		}
 		if okT {
@@ -380,13 +416,8 @@ func c16Lifetime(c *Ctx) *RuleResult {
 				if !ok || !g.Pos || be.Op != token.EQL || exprStr(be.Y) != "0" {
 					continue
 				}
-				if f := fieldOf(info, be.X); isCounter(f) {
+				if isCounterValue(u, be.X, nil) {
 					okG = true
-				}
-				if c2, ok := ast.Unparen(be.X).(*ast.CallExpr); ok {
-					if s2, ok := ast.Unparen(c2.Fun).(*ast.SelectorExpr); ok && isCounter(fieldOf(info, s2.X)) {
-						okG = true
-					}
 				}
 			}
 			if okG {
@@ -504,10 +535,68 @@ func c16Frozen(c *Ctx) *RuleResult {
 
 func init() {
 	register(&PropertySpec{
-		ID:    "C16",
-		Level: "other",
+		ID:          "C16",
+		Level:       "other",
 		Explanation: "Structural necessary conditions, on all paths: the contents of a pool-backed file change only under the lock obtained through lockMutatingData (which waits for uploads) and the cached digest is invalidated after every successful change; digests are only cached from frozen readers; one guarded close site of the backing file; reference-adding operations refuse a zero count (no resurrection), Unlink is forwarded only at zero; frozen readers are closed once or handed to a buffer. Lifetime over all histories and digest equality with the stored bytes are not decided.",
 		Assumptions: []string{"buffers built from a reader close it exactly once (bb-storage contract)"},
 		Rules:       []RuleFunc{c16MutatingLock, c16Lifetime, c16Frozen, c16LinkForwarding, c13LinkBalance},
 	})
+}
+
+
+// isCounterValue: x denotes the current value of a reference/link counter field (the given one, or
+// any field named referenceCount/linkCount when counter == nil): the field itself, a Load()/Add()
+// on it (atomic counters), or a local every assignment of which is one of those.
+func isCounterValue(u *FuncUnit, x ast.Expr, counter *types.Var) bool {
+	info := u.Info()
+	isC := func(v *types.Var) bool {
+		if v == nil {
+			return false
+		}
+		if counter != nil {
+			return v == counter
+		}
+		return v.Name() == "referenceCount" || v.Name() == "linkCount"
+	}
+	var direct func(e ast.Expr) bool
+	direct = func(e ast.Expr) bool {
+		e = ast.Unparen(e)
+		if isC(fieldOf(info, e)) {
+			return true
+		}
+		if call, ok := e.(*ast.CallExpr); ok {
+			if sel, ok := ast.Unparen(call.Fun).(*ast.SelectorExpr); ok && isC(fieldOf(info, sel.X)) && (sel.Sel.Name == "Load" || sel.Sel.Name == "Add") {
+				return true
+			}
+		}
+		return false
+	}
+	if direct(x) {
+		return true
+	}
+	id, ok := ast.Unparen(x).(*ast.Ident)
+	if !ok {
+		return false
+	}
+	v, ok := info.Uses[id].(*types.Var)
+	if !ok {
+		return false
+	}
+	n, all := 0, true
+	ast.Inspect(u.Decl.Body, func(m ast.Node) bool {
+		as, ok := m.(*ast.AssignStmt)
+		if !ok || len(as.Lhs) != len(as.Rhs) {
+			return true
+		}
+		for i, l := range as.Lhs {
+			if lid, ok := l.(*ast.Ident); ok && (info.Defs[lid] == v || info.Uses[lid] == v) {
+				n++
+				if !direct(as.Rhs[i]) {
+					all = false
+				}
+			}
+		}
+		return true
+	})
+	return n > 0 && all
 }
